@@ -143,6 +143,81 @@ theorem memoizePrims_complete_eq_step (s : FsBackend) (h : WF s) (hc : s.cache =
   rw [hv, step_memoize s h.writable]
   exact memoizePrims_foldl_eq s.ds fn arg ov mem val
 
+/-! ## A failed write and the write-through cache (fix F26)
+
+`StorageBackendBase.memoize` puts the result in the memory cache first and then writes. When the write does not go through
+(an I/O error after the first `n` primitives, possibly in the middle of a file), the entry is taken back: otherwise the cache
+— for a result larger than its budget that the caller still holds, its weak reference alone — would go on reporting the call
+as memoized, `memento_run_local` would skip the write on every later call and the body would run again and again. -/
+
+/-- the backend after a `memoize` whose write failed after `n` primitives (`torn`: in the middle of the next file) -/
+def FsBackend.memoizeFaulted (s : FsBackend) (fn arg : Nat) (ov : Option Nat) (mem : Nat) (val : Option Bytes) (size : Nat)
+    (wr : Bool) (n : Nat) (torn : Bool) : FsBackend :=
+  let s1 := FsBackend.cachePut s fn arg mem val size wr true
+  let s2 := FsBackend.mapCache s1 (fun c => Cache.forgetCall c (FsBackend.ckey fn arg))
+  let r : Request := ⟨fn, arg, ov, mem, val.toList⟩
+  { s2 with ds := variant s.ds (memoizePrims s.ds r) n torn }
+
+theorem hasKey_false_of_forall {c : List (Cache.Key × Cache.Entry)} {k : Cache.Key} (h : ∀ p ∈ c, p.1 ≠ k) :
+    Cache.hasKey c k = false := by
+  cases hk : Cache.hasKey c k with
+  | false => rfl
+  | true =>
+    obtain ⟨p, hp, hpk⟩ := List.any_eq_true.mp hk
+    exact absurd (by simpa using hpk) (h p hp)
+
+theorem refLookup_none_of_forall {r : List (Cache.Key × Nat)} {k : Cache.Key} (h : ∀ p ∈ r, p.1 ≠ k) :
+    Cache.refLookup r k = none := by
+  cases hk : Cache.refLookup r k with
+  | none => rfl
+  | some v => exact absurd rfl (h _ (Cache.refLookup_mem hk))
+
+/-- **after a failed write the cache claims nothing about the call**: no entry and no weak reference for it, whatever was
+    resident before, whatever the result's size and kind, at whichever primitive the write failed -/
+theorem faulted_memoize_leaves_no_claim (s : FsBackend) (fn arg : Nat) (ov : Option Nat) (mem : Nat) (val : Option Bytes)
+    (size : Nat) (wr : Bool) (n : Nat) (torn : Bool) :
+    match (FsBackend.memoizeFaulted s fn arg ov mem val size wr n torn).cache with
+    | none => True
+    | some c => Cache.hasKey c.cache (FsBackend.ckey fn arg) = false ∧ Cache.refLookup c.refs (FsBackend.ckey fn arg) = none := by
+  unfold FsBackend.memoizeFaulted FsBackend.mapCache FsBackend.cachePut
+  cases hc : s.cache with
+  | none => simp [hc]
+  | some c0 =>
+    simp only [hc, Option.map_some]
+    generalize Cache.prune (Cache.put c0 (FsBackend.ckey fn arg) mem (FsBackend.objId val 0) size wr true none) = c1
+    have hm := Cache.mem_forgetCall (s := c1) (k := FsBackend.ckey fn arg)
+    refine ⟨hasKey_false_of_forall (fun p hp => (hm.1 p hp).2), refLookup_none_of_forall (fun p hp => ?_)⟩
+    exact (hm.2 p (Cache.mem_prune_refs hp)).2
+
+/-- … so whether the call is memoized is again what the store says, and the runner writes again as soon as it can -/
+theorem faulted_memoize_asks_the_store (s : FsBackend) (fn arg : Nat) (ov : Option Nat) (mem : Nat) (val : Option Bytes)
+    (size : Nat) (wr : Bool) (n : Nat) (torn : Bool) :
+    let s' := FsBackend.memoizeFaulted s fn arg ov mem val size wr n torn
+    (FsBackend.isMemoized s' fn arg).2 = s'.ds.existsNV (.memento fn arg) := by
+  intro s'
+  have h := faulted_memoize_leaves_no_claim s fn arg ov mem val size wr n torn
+  unfold FsBackend.isMemoized
+  cases hc : s'.cache with
+  | none => rfl
+  | some c =>
+    have h' : Cache.hasKey c.cache (FsBackend.ckey fn arg) = false ∧ Cache.refLookup c.refs (FsBackend.ckey fn arg) = none := by
+      have := h; simp only [show (FsBackend.memoizeFaulted s fn arg ov mem val size wr n torn).cache = some c from hc] at this; exact this
+    simp only [Cache.isMemoized, h'.1, h'.2, Bool.false_eq_true, if_false, Option.isSome_none]
+
+/-- the code before the fix: the write-through entry stays -/
+def FsBackend.memoizeFaultedUnfixed (s : FsBackend) (fn arg : Nat) (ov : Option Nat) (mem : Nat) (val : Option Bytes) (size : Nat)
+    (wr : Bool) (n : Nat) (torn : Bool) : FsBackend :=
+  { FsBackend.cachePut s fn arg mem val size wr true with
+    ds := variant s.ds (memoizePrims s.ds ⟨fn, arg, ov, mem, val.toList⟩) n torn }
+
+/-- witness of F26: a 10-byte cache, a weak-referenceable result of 400 bytes that the caller holds, the write fails at the
+    first primitive: without taking the entry back the backend says "memoized" although the store has nothing; with it the
+    answer is the store's -/
+private def heldS : FsBackend := (FsBackend.step (FsBackend.init false (some 10)) (.hold 3)).1
+example : (FsBackend.isMemoized (FsBackend.memoizeFaultedUnfixed heldS 1 1 none 7 (some 3) 400 true 0 false) 1 1).2 = true ∧
+    (FsBackend.memoizeFaultedUnfixed heldS 1 1 none 7 (some 3) 400 true 0 false).ds.existsNV (.memento 1 1) = false := by decide +kernel
+example : (FsBackend.isMemoized (FsBackend.memoizeFaulted heldS 1 1 none 7 (some 3) 400 true 0 false) 1 1).2 = false := by decide +kernel
+
 /-! non-vacuity: a crash in the middle of the data file, then in the middle of the memento file -/
 private def req : Request := ⟨1, 1, none, 10, [7]⟩
 private def F0 : Sem := fun _ _ => some 7
